@@ -6,6 +6,7 @@ import (
 	"encoding/json"
 	"errors"
 	"fmt"
+	"math"
 	"os"
 	"sync"
 	"testing"
@@ -46,6 +47,9 @@ type Scenario struct {
 	// end of the scenario: every later request stays in the receiver, which has taken note of it all
 	// the same ("a message was received")
 	HoldHandler bool `json:"holdHandler,omitempty"`
+	// Never: the monitor is configured with the largest duration there is (the usual way to say
+	// "no timeout"); the gaps of the events are those of PeriodMs. Nothing is ever closed or pinged.
+	Never bool `json:"never,omitempty"`
 }
 
 type fakeConn struct{ ctx context.Context }
@@ -76,6 +80,13 @@ type histRec struct {
 
 func Exec(t *testing.T, sc Scenario, r *evid.Run) *evid.Failure {
 	period := time.Duration(sc.PeriodMs) * time.Millisecond
+	if sc.Never {
+		period = time.Duration(math.MaxInt64)
+	}
+	kaTimeout := period
+	if !sc.Never {
+		kaTimeout = period * time.Duration(sc.MaxRetries+1)
+	}
 	isKA := sc.Target == "raw-ka" || sc.Target == "udp-ka" || sc.Target == "tcp-ka"
 	var hist []histRec
 	var created time.Duration
@@ -161,7 +172,7 @@ func Exec(t *testing.T, sc Scenario, r *evid.Run) *evid.Failure {
 				onInactive := func(cc *udpClient.Conn) { markClosed(); _ = cc.Close() }
 				var mon udp.Option = options.WithInactivityMonitor(period, onInactive)
 				if isKA {
-					mon = options.WithKeepAlive(uint32(sc.MaxRetries), period*time.Duration(sc.MaxRetries+1), onInactive)
+					mon = options.WithKeepAlive(uint32(sc.MaxRetries), kaTimeout, onInactive)
 				}
 				cc := endpoints.UDP(link.A, []udp.Option{
 					options.WithMessagePool(pool.New(8, 2048)), options.WithPeriodicRunner(tk.Runner()),
@@ -184,7 +195,7 @@ func Exec(t *testing.T, sc Scenario, r *evid.Run) *evid.Failure {
 				onInactive := func(cc *tcpClient.Conn) { markClosed(); _ = cc.Close() }
 				var mon tcp.Option = options.WithInactivityMonitor(period, onInactive)
 				if isKA {
-					mon = options.WithKeepAlive(uint32(sc.MaxRetries), period*time.Duration(sc.MaxRetries+1), onInactive)
+					mon = options.WithKeepAlive(uint32(sc.MaxRetries), kaTimeout, onInactive)
 				}
 				cc, err := endpoints.TCP(link.A, []tcp.Option{
 					options.WithMessagePool(pool.New(8, 2048)), options.WithPeriodicRunner(tk.Runner()),
@@ -305,6 +316,17 @@ func Exec(t *testing.T, sc Scenario, r *evid.Run) *evid.Failure {
 	}
 	r.Class("teardown_leaks", b2i(res.Leaked))
 
+	if sc.Never {
+		for i, h := range hist {
+			if h.closedNow {
+				return evid.Failf("monitor/closed-without-timeout", sc, "event %d (%s at %v): the connection was closed although the monitor was configured with the maximum duration (no timeout)", i, h.kind, h.t)
+			}
+			if h.pingsSoFar > 0 {
+				return evid.Failf("monitor/ping-without-timeout", sc, "event %d (%s at %v): %d pings were sent although the monitor was configured with the maximum duration", i, h.kind, h.t, h.pingsSoFar)
+			}
+		}
+		return nil
+	}
 	// ---- oracle: replay the history on the model ----------------------------------------------------
 	lastRecv := created // the monitor starts with "activity now"
 	pingsAtReset := 0
@@ -385,6 +407,7 @@ func gen(t *rapid.T) Scenario {
 		MaxRetries: rapid.IntRange(0, 4).Draw(t, "maxRetries"),
 	}
 	sc.HoldHandler = sc.Target[:3] != "raw" && rapid.IntRange(0, 3).Draw(t, "hold") == 0
+	sc.Never = rapid.IntRange(0, 9).Draw(t, "never") == 0
 	p := sc.PeriodMs
 	gaps := []int{1, p / 3, p / 2, p - 1, p + 1, p + p/2, 2*p + 1, 5*p + 3}
 	n := rapid.IntRange(1, 16).Draw(t, "nev")
